@@ -336,3 +336,10 @@ add("so_iter_dfcc", ["C06", "C18"], ["tu/sorter_iter_dfcc.c"], "h_sorter_iter_df
              "mtbl_merger_add_source/mtbl_merger_add_source__cap", "mtbl_merger_source/mtbl_merger_source__cap", "mtbl_source_iter/mtbl_source_iter__cap", "mtbl_iter_init/mtbl_iter_init__cap"],
     loops="loops/so_iter.json", unwind=24, timeout=900, slice=1, strength="U", functions=["mtbl_sorter_iter"],
     assumptions=["merger, merger options, reader source, result handler and iterator constructors replaced by capture contracts; up to 2^28 chunk readers", "the options object leaked when the final flush fails is the open observation of DESIGN.md section 5 (not a listed clause)"])
+FS_DFCC2_ASSUME = ["mtbl_fileset_reload replaced by its own contract (group fs_reload_dfcc): callers see only the contract", "merger / iterator constructors and destructors are capture contracts", "monotonic clock whose value differs from every timestamp handed out before; handle invariant H assumed on entry"]
+add("fs_source_iter_dfcc", ["C07"], ["tu/fileset_dfcc.c"], "h_fileset_source_iter_dfcc", mode="dfcc", enforce="fileset_source_iter/fileset_source_iter__spec",
+    replace=["mtbl_fileset_reload/mtbl_fileset_reload__spec", "my_calloc/my_calloc__cap", "mtbl_merger_source/mtbl_merger_source__cap", "mtbl_source_iter/mtbl_source_iter__cap", "mtbl_iter_init/mtbl_iter_init__cap"],
+    unwind=24, timeout=900, slice=1, strength="U", functions=["fileset_source_iter", "fileset_iter_init"], assumptions=FS_DFCC2_ASSUME)
+add("fs_iter_free_dfcc", ["C07", "C18"], ["tu/fileset_dfcc.c"], "h_fileset_iter_free_dfcc", mode="dfcc", enforce="fileset_iter_free/fileset_iter_free__spec",
+    replace=["mtbl_fileset_reload/mtbl_fileset_reload__spec", "mtbl_iter_destroy/mtbl_iter_destroy__cap", "free/free__cap"],
+    unwind=24, timeout=900, slice=1, strength="U", functions=["fileset_iter_free"], assumptions=FS_DFCC2_ASSUME)
